@@ -1,0 +1,36 @@
+//go:build verif
+
+package main
+
+// Machine-checked contracts (read by /verif/engine; comment-only, compiled only with -tags verif).
+//
+// The NAT probe server (C13): what a prober posts is remote input. Whatever the body decodes to - an error, a
+// well-formed poll response without an offer, an offer that is no session description - the handler answers with a
+// status and never dereferences an error or a description it does not have (nil-dereference sweep on; pion objects
+// are opaque). A prober that opens more than one data channel must not make the server close its notification channel
+// twice (close sweep on in the callback).
+//@ func probeHandler(w http.ResponseWriter, r *http.Request)
+//@   props C13
+//@   flag nosafety safety-keep=nil
+//@   requires w != nil && r != nil
+//
+// The notification channel is closed by the once-guarded closure only: the first data channel that opens closes it,
+// the others find the Once done (pion runs OnOpen once per channel, the prober decides how many channels there are).
+//@ func makePeerConnectionFromOffer$1$1$1()
+//@   props C13
+//@   flag nosafety safety-close
+//   (runs only inside opened.Do: the Once has not completed, and nothing else closes the channel)
+//@   assumes dataChan != nil && !closed(dataChan)
+//
+//@ func makePeerConnectionFromOffer$1$1()
+//@   props C13
+//@   flag nosafety safety-close
+//   (the channel is closed only inside opened.Do - closed-world: this is the only close of it - so it is open as
+//   long as the Once has not completed)
+//@   assumes dataChan != nil && (closed(dataChan) ==> oncedone(&opened))
+//@   ensures {closes-only-through-the-once} oncedone(&opened)
+//
+//@ func makePeerConnectionFromOffer(sdp *webrtc.SessionDescription, dataChan chan struct{}) (r *webrtc.PeerConnection, err error)
+//@   props C13
+//@   flag nosafety
+//@   ensures {value-or-error} (err == nil) <==> (r != nil)
